@@ -167,6 +167,33 @@ let handle kind a =
       Some ("sync=" ^ sres_s sr ^ "|" ^ hex_of_bytes sseq
             ^ " async=" ^ sres_s ar ^ "|" ^ hex_of_bytes aseq ^ "|" ^ string_of_int (int_of_nat n)
             ^ "|" ^ string_of_int (int_of_nat pos))
+  | ("asam" | "avcf") as k ->
+      let data = bytes_of_hex a.(0) and cap = nat_of_int (int_of_string a.(1)) in
+      let show (l, pos) =
+        String.concat "," (List.map (fun (r, v) ->
+          match r with
+          | COk k when int_of_nat k > 0 ->
+              string_of_int (int_of_nat k) ^ "/" ^ String.concat ":" (List.map hex_of_bytes v)
+          | COk _ -> "0"
+          | CErr c -> "Err:" ^ (match int_of_nat c with 0 -> "InvalidInput" | 1 -> "InvalidData" | 2 -> "UnexpectedEof" | _ -> "OutOfFuel")
+          | CPanic -> "Panic") l)
+        ^ "|" ^ string_of_int (int_of_nat pos) in
+      let codes = script_codes a.(2) a.(3) in
+      if k = "asam" then Some ("sync=" ^ show (sync_sam_view_case data) ^ " async=" ^ show (async_sam_view_case cap codes data))
+      else Some ("sync=" ^ show (sync_vcf_view_case data) ^ " async=" ^ show (async_vcf_view_case cap codes data))
+  | "ahdr" ->
+      let prefix = n_of_int (if a.(0) = "sam" then 64 else 35) in
+      let data = bytes_of_hex a.(1) and cap = nat_of_int (int_of_string a.(2)) in
+      let show ((hl, r), pos) =
+        String.concat ";" (List.map hex_of_bytes hl) ^ "|" ^ (match r with UOk -> "Ok" | UNoFuel -> "NoFuel")
+        ^ "|" ^ string_of_int (int_of_nat pos) in
+      Some ("sync=" ^ show (sync_header_case prefix data)
+            ^ " async=" ^ show (async_header_case prefix cap (script_codes a.(3) a.(4)) data))
+  | "abcf" ->
+      let data = bytes_of_hex a.(0) in
+      let chunk = nat_of_int (int_of_string a.(3)) in
+      let show (n, c) = dec_of_n n ^ ":" ^ dec_of_n c in
+      Some ("sync=" ^ show (sync_bcf_case data) ^ " async=" ^ show (async_bcf_case (script_codes a.(1) a.(2)) chunk data))
   | "awl" ->
       let calls = if a.(4) = "_" then [] else List.map (fun x -> nat_of_int (int_of_string x)) (split_on ',' a.(4)) in
       let ((r, sink), log) = async_write_case (script_codes a.(2) a.(3)) calls (bytes_of_hex a.(5)) in
